@@ -1545,6 +1545,34 @@ func originD(v ssa.Value, depth int) ssa.Value {
 				return res
 			}
 		}
+	case *ssa.Extract:
+		// result k of an unexported helper: the one value all its returns that do not return nil there agree on
+		if c, ok := x.Tuple.(*ssa.Call); ok {
+			if g := staticCallee(c); g != nil && inModuleFn(g) && g.Blocks != nil && g.Object() != nil && !g.Object().Exported() && !isBigWrapperFn(g) {
+				var res ssa.Value
+				n := 0
+				bindCall(c, g, func() {
+					dead := deadBlocks(g)
+					for _, r := range returnsOf(g) {
+						if dead[r.Block()] || x.Index >= len(r.Results) || isNilConst(r.Results[x.Index]) {
+							continue
+						}
+						o := originD(r.Results[x.Index], depth+1)
+						if n == 0 || o == res {
+							res = o
+							if n == 0 {
+								n = 1
+							}
+						} else {
+							n = 2
+						}
+					}
+				})
+				if n == 1 && res != nil {
+					return res
+				}
+			}
+		}
 	}
 	return v
 }
